@@ -5,6 +5,26 @@ ROOT = os.path.dirname(os.path.dirname(os.path.abspath(__file__)))
 
 CHECKS = {
  # id: (engine, category, technique, level text, level note, design_ref)
+ "C02": ("agentsim+enum", "exploration",
+   "stateful property-based testing on the real agent + runtime (replica oracle against the agent-side map trace, reference map for take/drop) plus bounded-exhaustive and random model-based testing of the runtime's MapBackpressure queue",
+   "3e5 (quick) op lists over three real map lanes (HashMap and BTreeMap backings, transient), 1-5 remotes with tiny response channels, commands update/remove/clear/take/drop with keys in several Recon spellings, handler programs and cascades: entries, removes and clears are never invented, per key frames arrive in history order, no update older than a clear arrives after that clear, at quiescence each replica equals the lane's map (side condition for remotes that only linked), take/drop remove exactly the keys designated by the documented order on both backings, and a probe remote's sync equals the fold of the trace. Every MapBackpressure push/pop sequence to depth 6 over a 9-op alphabet (5.98e5) and 3e5 random sequences over 19 key spellings + non-UTF-8 keys: popping everything equals applying the pushed ops, no two queued entries with equal keys.",
+   "Trusts: agent-side on_update/on_remove/on_clear trace as ground truth (C06). Known finding excluded by a precondition-guarded signature: a remote that syncs a map lane without linking first can lose entries (see C03). Epoch wrap-around (2^64 pops) is unreachable.",
+   "DESIGN.md §4 C02"),
+ "C03": ("agentsim", "exploration",
+   "stateful property-based testing: sync requests injected at generated positions inside update bursts on the real agent + runtime with slow remotes; window oracle over the agent-side trace (snapshot consistent with some instant between request and synced) plus tail convergence",
+   "2.6e5 (quick) op lists with sync envelopes at generated positions inside update bursts, by 1-3 remotes, with and without a preceding link, stalled or not, tiny lane buffers so that lane events are still queued when the snapshot is taken: linked comes first and once, every sync is answered by synced, at each synced every key of the replica (value lane: its value) matches a state the lane held at some instant between the sync request being written and synced being read, and afterwards the C01/C02 convergence rules hold for every remote.",
+   "Trusts: the window [request written, synced read] is wider than the true window, so the check is sound but not tight. Known findings excluded by precondition-guarded signatures: map-lane sync without a prior link loses entries whose live event is popped before the implicit link; synced is emitted while events that were pending at request time are still queued (proposed lane-level repair judged too large: fixes/C03-*.diff).",
+   "DESIGN.md §4 C03"),
+ "C10": ("pure", "exploration",
+   "property-based testing of every codec pair: generated message sequences under exhaustive single splits, byte-wise and random multi-splits (round trip + exact consumption), and layout-aware byte-level mutations (tags, length fields, ids, truncation) run in child processes; libFuzzer-style structured mutation without coverage feedback",
+   "29 decoder families (lane requests/responses, map messages/operations, store init/response, downlink notifications/operations, command messages, routed requests/responses, WithLengthBytesCodec, WithLenRecognizerDecoder), each fed by every encoder the repository pairs it with: streams of 1-8 messages at every single split point, one byte per read and random multi-splits must decode to exactly what was encoded with exactly the frame's bytes consumed (3e3 streams per family quick); 1.2e4 mutated streams per family (invalid/other tag, lengths 0 / len+-k / 2^32 / 2^61.. / u64::MAX-k, id and body bytes, truncation, insert, delete) must never panic, abort or hang, must decode intact prefix frames exactly, must reject invalid tags, never produce a message from a truncated or overrun frame, and raw decoders must re-encode to the bytes they consumed.",
+   "Trusts: the wire-layout model used to aim mutations (self-checked against the encoders). Known findings excluded by signature: the typed map decoder ignores the record size of a Clear frame; the command decoder ignores undefined flag bits; a body length on a body-less routed message (typed half).",
+   "DESIGN.md §4 C10"),
+ "C14": ("agentsim", "exploration",
+   "stateful property-based testing on the real agent + runtime: generated bursts on supply and command lanes and agent-sent commands (send_command / Commander) with slow remotes and slow command targets answered by the harness; exactly-once / order / supersession oracle",
+   "Generated programs push bursts of 1-500 unique items (far above channel sizes) to a real SupplyLane while remotes link/unlink and read slowly: every remote linked throughout receives exactly the pushed sequence, a remote linking mid-burst a contiguous duplicate-free in-order run; bursts of command envelopes from several remotes: on_command fires exactly once per command in each remote's order; agent-sent commands (send_command and the Commander API, overwritable and not) to 1-3 targets whose channels the harness drains at a generated pace: every non-overwritable command arrives exactly once in order per target, an overwritable one may be missing only if a later command to the same target superseded it, nothing arrives twice.",
+   "Trusts: the harness answers LinkRequest::Commander like the server runtime does (vsim/src/links.rs).",
+   "DESIGN.md §4 C14"),
  "C07": ("dlrt", "exploration",
    "stateful model-based property testing: generated op lists (consumer attach/write/read/drop, remote lane model steps, stalls, time) against the real Value/MapDownlinkRuntime polled by the harness; history-invariant oracle; proptest shrinking",
    "3e5 (quick) op lists drive the real ValueDownlinkRuntime / MapDownlinkRuntime inside a paused seeded runtime: up to 5 consumers attach through AttachAction with options from {SYNC, KEEP_LINKED} and 1..4096-byte buffers, write operations at a generated pace and may drop at any point, while a legal remote lane model answers the frames the runtime writes (link, sync with full replay, commands applied and echoed), makes spontaneous changes, unlinks, drops and stalls by partial reads/writes. Per consumer: linked, then (SYNC) synced with a state equal to some instant of the lane's history followed by exactly its later events, gap-free in emission order, unlinked at close; on the wire: link first, sync only for SYNC consumers, no fabricated/duplicated commands, per-consumer (value) and per-key/clear (map) order, only superseded commands dropped.",
